@@ -132,12 +132,23 @@ def c10_reader(kind="stream"):
     return {"violates": False}
 
 
+def c10_equiv(kind="sqlite", expr="not (r.n == 1)", form="text"):
+    rng = random.Random(11)
+    k = {"stream": "stream"}.get(kind, kind)
+    recs = _records(rng, 6, uniform=KINDS[k][2])
+    bad = _case(k, recs, expr, "text" if form == "text" else form)
+    return {"violates": bool(bad), "detail": bad}
+
+
 def c10_history(expr, cls="Selector", order="a then b", x=0, s=""):
+    from flow.record import RecordDescriptor
     from flow.record import selector as S
 
     D = _descs()
     ra, rb = D[0](n=x, s=s, other=0), D[1](s=s, t="a")
-    first, second = (ra, rb) if order == "a then b" else (rb, ra)
+    if "same name" in order:
+        rb = RecordDescriptor("c10/a", [("string", "s"), ("string", "t")])(s=s, t="a")
+    first, second = (ra, rb) if order.startswith("a then") else (rb, ra)
     C = getattr(S, cls)
     s1 = C(expr)
     _safe_match(s1, first)
@@ -151,10 +162,17 @@ def c10_frame(expr, cls="Selector"):
     D = _descs()
     ra, rb = D[0](n=1, s="a", other=0), D[1](s="a", t="a")
     before = (_obs(ra), _obs(rb))
+
+    def gstate():
+        return {k: (type(v).__name__, len(v), sorted(map(repr, v))[:50] if not isinstance(v, list) else list(map(repr, v))[:50]) for k, v in vars(S).items() if isinstance(v, (dict, list, set)) and not k.startswith("__")}
+
+    g0 = gstate()
     s1 = getattr(S, cls)(expr)
     for r in (ra, rb, ra):
         _safe_match(s1, r)
-    return {"violates": (_obs(ra), _obs(rb)) != before}
+    g1 = gstate()
+    leaked = [k for k in g1 if g1[k] != g0.get(k)]
+    return {"violates": (_obs(ra), _obs(rb)) != before or bool(leaked), "module_state_left_behind": leaked}
 
 
 def c10_make():
@@ -223,4 +241,4 @@ def c10_model_conformance():
     return {"ok": True, "cases": 3, "violates": False}
 
 
-CALLS = {"c10_sweep": c10_sweep, "c10_reader": c10_reader, "c10_history": c10_history, "c10_frame": c10_frame, "c10_make": c10_make, "c10_model_conformance": c10_model_conformance}
+CALLS = {"c10_equiv": c10_equiv, "c10_sweep": c10_sweep, "c10_reader": c10_reader, "c10_history": c10_history, "c10_frame": c10_frame, "c10_make": c10_make, "c10_model_conformance": c10_model_conformance}
